@@ -118,7 +118,29 @@ Definition outgoing (hs_ok : bool) : bool * bool := (hs_ok, hs_ok).
 Definition outgoing_run (chk : bool) (A a B : N) (Y : point) (G : cframe) : bool * bool :=
   outgoing (fst (requester chk A a B Y G)).
 
+(* ---- a peer that performs its first [sends] sends of an honest run and then stays silent, the stream
+   staying open: the role never gets the frame it waits for (a frame that never comes is, for the role, a
+   frame that does not open: it cannot go on).  Requester (A, a) towards B against such a responder
+   (its sends: hello, accept); responder (B, b) against such a requester (hello, authenticate,
+   acknowledge) ---- *)
+Definition requester_vs_stalling (chk : bool) (A a B b : N) (sends : N) : bool :=
+  if sends =? 0 then false
+  else if sends =? 1 then fst (requester chk A a B (Pt b) AccJunk)
+  else fst (honest_run chk A a B B b).
+
+Definition responder_vs_stalling (chk : bool) (A a B b : N) (sends : N) : option N :=
+  if sends =? 0 then None
+  else match snd (requester chk A a B (Pt b) AccJunk) with
+       | None => None
+       | Some auth =>
+           if sends =? 1 then fst (responder chk B b (Pt a) AuthJunk None)
+           else if sends =? 2 then fst (responder chk B b (Pt a) auth None)
+           else fst (responder chk B b (Pt a) auth (Some true))
+       end.
+
 Inductive case :=
+| CStallReq (chk : bool) (A a B b : N) (sends : N) (obs : bool)
+| CStallResp (chk : bool) (A a B b : N) (sends : N) (obs : option N)
 | COutgoing (hs_ok card_written marked_sent : bool)
 | CIncoming (self : N) (hs : option N) (c : card) (obs : option N)
 | CHonest (chk : bool) (A a Btarget B' b : N) (obs_req : bool) (obs_resp : option N)
@@ -130,6 +152,8 @@ Definition optN_eqb (a b : option N) : bool :=
 
 Definition check_case (c : case) : bool :=
   match c with
+  | CStallReq chk A a B b n obs => Bool.eqb (requester_vs_stalling chk A a B b n) obs
+  | CStallResp chk A a B b n obs => optN_eqb (responder_vs_stalling chk A a B b n) obs
   | COutgoing hs w m => let '(w', m') := outgoing hs in Bool.eqb w w' && Bool.eqb m m'
   | CIncoming self hs c obs => optN_eqb (incoming self hs c) obs
   | CHonest chk A a Bt B' b o1 o2 =>
